@@ -633,3 +633,29 @@ TASKS.append(FunctionTask(DRV_RD, module_env=dict(DRV_ENV, np=_NP_RD, single_azi
                           registry={"TimeSeries.window": FuncV(_m_window, "TimeSeries.window")},
                           label="hvsrpy.processing.traditional_rotdpp_hvsr_processing[rows]",
                           clauses=["one curve per window, in input order, each computed from its own window only"]))
+
+
+# ---------------------------------------------------------------------------------------------------------------------
+# HvsrCurve._check_input (the validation every result object applies to its frequency vector and its amplitudes): a fresh double copy of the
+# values when none is NaN and none is negative, ValueError otherwise - 'finite non-negative amplitudes' of the statement
+from pyvc import npmodel as _npm
+_nv = z3.Int("n_values")
+
+
+def _ci_inputs(ex, st):
+    from pyvc.contract import sym_arr1
+    from pyvc.core import StrV
+    st.env["value"] = sym_arr1(ex, st, "value", _nv)
+    st.env["name"] = StrV("amplitude")
+    st.env["_nv"] = _nv
+    return [_nv >= 0]
+
+
+CHECK_INPUT = Contract(
+    qual="hvsrpy.hvsr_curve.HvsrCurve._check_input", params=["value", "name"], ghost={"isnan": lambda x: x == _npm.NAN}, make_inputs=_ci_inputs,
+    ensures=["len(result) == _nv", "forall(i, 0, _nv, result[i] == old(value)[i])", "not (result is old(value))",
+             "forall(i, 0, _nv, not isnan(result[i]) and result[i] >= 0)"],
+    raises={"ValueError": "exists(i, 0, _nv, isnan(value[i]) or value[i] < 0)"}, modifies=[],
+    notes="1-D float input; the TypeError path concerns input that cannot be cast and is outside the symbolic input. NaN is the distinguished constant of "
+          "A-NAN: the contract requires the NaN test to come before the sign test (a comparison with NaN is not modelled)")
+TASKS.append(FunctionTask(CHECK_INPUT, clauses=["finite non-negative amplitudes: anything else is refused"]))
